@@ -837,6 +837,28 @@ S("C19", "read-timeout-unclamped-branch", "C19-R3")
 S("C19", "read-budget-computed-before-request", "C19-R4")
 S("C20", "requestfield-keeps-callers-headers", "C20-R6")
 S("C20", "iter-fields-dispatch-on-dict", "C20-R7")
+
+# ---- round 4: one independent seed per property (tools/record_seed4.py; DESIGN 16)
+S("C01", "drain-conn-large-body-close-without-release", "C01-R7")
+S("C02", "close-consumes-finalizer", "C02-R4")
+S("C03", "is-connected-peek-accepts-pending-data", "C03-R2")
+S("C04", "retry-after-bypasses-allowed-methods", "C04-R5")
+S("C05", "from-int-default-truthiness", "C05-R1")
+S("C06", "empty-stripped-headers-fall-back-to-manager-defaults", "C06-R7")
+S("C07", "own-hostname-match-gated-on-stale-flag", "C07-R3")
+S("C08", "cn-fallback-gated-on-dns-san-only", "C08-R4")
+S("C09", "tunnel-origin-hostname-only-for-http-proxy", "C07-R8")
+S("C10", "encode-target-fragment-only-after-query", "C10-R2")
+S("C11", "failed-tell-position-rerecorded-instead-of-raising", "C11-R4")
+S("C12", "handle-chunk-exact-amt-stays-in-chunk", "C13-R9")
+S("C13", "httplib-incomplete-read-swallowed-without-content-length", "C01-R6")
+S("C14", "port-pattern-unicode-digits", "C14-R5")
+S("C15", "sni-trailing-dot-kept-in-tunnel", "C15-R3")
+S("C16", "extend-shares-source-value-lists", "C16-R2")
+S("C17", "pool-get-or-create-via-nonatomic-setdefault", "C17-R6")
+S("C18", "pool-key-falsy-values-collapse-to-none", "C18-R4")
+S("C19", "read-timeout-computed-before-lazy-connect", "C19-R4")
+S("C20", "escape-fast-path-raw-regex-class", "C20-R2")
 MUTANTS.append(dict(prop="C03", name="fixed:F15-early-release-recycles-unread-body", patch="selftest/patches/f15_fix.diff", reverse=True, rule="C03-R8", benign=False))
 # ---- C08-R8 / F20: a repaired scratch variant (the refusal is deferred until every entry was examined) must be silent
 MUTANTS.append(dict(prop="C08", name="repair:F20-refusal-deferred-until-all-entries-examined", patch="selftest/patches/f20_repair.diff", rule=None, benign=True))
